@@ -24,6 +24,7 @@ func init() {
 		Parts: []Part{
 			{Name: "bound", Shards: 12, Fn: c03Bound},
 			{Name: "conc", Race: true, Shards: 4, Fn: c03Conc},
+			{Name: "reconfig", Shards: 8, Fn: c03Reconfig},
 		},
 	})
 }
@@ -401,4 +402,131 @@ func c03Conc(c *Ctx) {
 		c.Count("conc_nontrivial", 1)
 	})
 	c.Require("conc_nontrivial", 2)
+}
+
+// c03Reconfig: run-time re-configuration. A RateSet is a mutable object (Add overrides the rate of an existing period);
+// the limiter consults the effective set on every request, so from the first request after a change the rates in force
+// are the new ones: within each epoch the statement's bound must hold for that epoch's rates (a bucket carries at most the
+// new burst across the change and less than one token of accrued time, which the +1 of the bound covers).
+func c03Reconfig(c *Ctx) {
+	c.Cases("reconf", c.N(400, 10000), func(i int, r *rand.Rand) {
+		rs := genRates(r, 2)
+		nsrc := 1 + r.IntN(3)
+		start := baseTime.Add(time.Duration(r.Int64N(int64(time.Hour)))).Add(time.Duration(r.Int64N(1e9)))
+		freeze(start)
+		defer unfreeze()
+		var admitted int
+		next := http.HandlerFunc(func(w http.ResponseWriter, req *http.Request) { admitted++ })
+		shared := mkRateSet(rs)
+		def := shared
+		var opts []ratelimit.TokenLimiterOption
+		viaExtract := r.IntN(2) == 0
+		if viaExtract {
+			def = ratelimit.NewRateSet()
+			_ = def.Add(time.Second, 1000000, 1000000)
+			opts = append(opts, ratelimit.ExtractRates(ratelimit.RateExtractorFunc(func(*http.Request) (*ratelimit.RateSet, error) { return shared, nil })))
+		}
+		tl, err := ratelimit.New(next, hdrExtractor, def, opts...)
+		if err != nil {
+			c.Violation("constructor", err.Error(), nil)
+			return
+		}
+		epochs := 2 + r.IntN(3)
+		var epochRates [][]rateSpec
+		nontrivial := 0
+		for e := 0; e < epochs; e++ {
+			if e > 0 {
+				// change the set in place
+				rs2 := make([]rateSpec, len(rs))
+				for k, x := range rs {
+					avg := int64(1 + r.IntN(20))
+					if r.IntN(2) == 0 && x.Average > 1 { // tighten
+						avg = 1 + r.Int64N(x.Average)
+					}
+					rs2[k] = rateSpec{x.Period, avg, 1 + r.Int64N(5*avg)}
+				}
+				if len(rs2) < 3 && r.IntN(4) == 0 { // a further period
+					p := pick(r, []time.Duration{3 * time.Second, 7 * time.Second, 30 * time.Second})
+					avg := int64(1 + r.IntN(10))
+					dup := false
+					for _, x := range rs2 {
+						dup = dup || x.Period == p
+					}
+					if !dup {
+						rs2 = append(rs2, rateSpec{p, avg, 1 + r.Int64N(5*avg)})
+					}
+				}
+				for _, x := range rs2 {
+					if err := shared.Add(x.Period, x.Average, x.Burst); err != nil {
+						c.Violation("constructor", err.Error(), nil)
+						return
+					}
+				}
+				rs = rs2
+				c.Count("reconfigurations_in_place", 1)
+			}
+			epochRates = append(epochRates, rs)
+			epochStart := now()
+			hist := c03GenHistory(r, rs, nsrc, 600+r.IntN(1200))
+			logs := make([][]admitEv, nsrc)
+			var minBurst int64 = 1 << 62
+			for _, x := range rs {
+				if x.Burst < minBurst {
+					minBurst = x.Burst
+				}
+			}
+			rejected, admittedN := 0, 0
+			for _, q := range hist {
+				if q.dt < 0 {
+					n := now()
+					advance(n.Truncate(time.Second).Add(time.Second).Sub(n))
+				} else if q.dt > 0 {
+					advance(q.dt)
+				}
+				req := httptest.NewRequest("GET", "http://x.test/", nil)
+				req.Header.Set("X-Src", sfmt("s%d", q.src))
+				req.Header.Set("X-Amt", strconv.FormatInt(q.amt, 10))
+				before := admitted
+				tl.ServeHTTP(httptest.NewRecorder(), req)
+				if admitted == before+1 {
+					admittedN++
+					logs[q.src] = append(logs[q.src], admitEv{int64(now().Sub(epochStart)), q.amt})
+					if q.amt > minBurst {
+						c.Violation("reconfig/over-burst-admitted", sfmt("epoch %d, rates in force %v (history of rate sets %v): a request of amount %d, larger than the burst, was admitted", e, rs, epochRates, q.amt), map[string]any{"epoch_rates": epochRates, "via_extractor": viaExtract})
+						return
+					}
+				} else {
+					rejected++
+				}
+			}
+			c.Count("requests", int64(len(hist)))
+			for s := 0; s < nsrc; s++ {
+				for _, x := range rs {
+					if ok, i0, j0, ex := checkBound(logs[s], x); !ok {
+						a, b := logs[s][i0], logs[s][j0]
+						var sum int64
+						for k := i0; k <= j0; k++ {
+							sum += logs[s][k].amt
+						}
+						c.Violation("reconfig/bound-exceeded", sfmt("epoch %d after the rate set was changed in place (history of rate sets %v): source s%d rate %v: admitted %d in the interval [%v,%v] of the epoch, length %v; bound burst+T*avg/period+1 exceeded by %s", e, epochRates, s, x, sum, time.Duration(a.t), time.Duration(b.t), time.Duration(b.t-a.t), ex),
+							map[string]any{"epoch_rates": epochRates, "via_extractor": viaExtract, "sources": nsrc})
+						return
+					}
+					c.Count("intervals_checked_end_points", int64(len(logs[s])))
+				}
+			}
+			if e > 0 && rejected > 0 && admittedN > 0 {
+				nontrivial++
+			}
+		}
+		c.Eval()
+		if nontrivial > 0 {
+			c.Nontrivial(sfmt("reconf/%v/%d/%v", epochRates, nsrc, viaExtract))
+			c.Count("reconfig_histories_nontrivial", 1)
+		}
+		if i < 2 {
+			c.Sample(map[string]any{"epoch_rates": epochRates, "sources": nsrc, "via_extractor": viaExtract})
+		}
+	})
+	c.Require("reconfig_histories_nontrivial", 2)
 }
